@@ -7,7 +7,7 @@ from spec import c04 as S
 from checks.C02 import _WS_CTRL, UNRESERVED, _escape_of
 
 BOUNDS = {
-    "quick": "27 transformation families, each around a symbolic hole of length 0..2 (any code points unless stated), quoted in {F,T}; redirect pre-step on 3 skeletons with holes of length 0..2",
+    "quick": "29 transformation families, each around a symbolic hole of length 0..2 (any code points unless stated), quoted in {F,T}; redirect pre-step on 4 skeletons with holes of length 0..2",
     "thorough": "holes of length 0..3",
 }
 STUBS = ["see C01"]
@@ -54,6 +54,11 @@ def transform(st, kind, n, quoted):
         u, v = cat("https://x.fr/a", h), cat("https://x.fr:443/a", h)
     elif kind == "host-case":
         u, v = cat("http://sub.x.fr/A", h), cat("http://SuB.X.fR/A", h)
+    elif kind == "scheme-with-port":
+        # the scheme is irrelevant whatever port comes with it
+        u, v = cat("http://x.fr:443/a", h), cat("https://x.fr:443/a", h)
+    elif kind == "scheme-with-port-80":
+        u, v = cat("https://x.fr:80/a", h), cat("x.fr:80/a", h)
     elif kind == "host-case-platform":
         # letter case of a host that the heuristics look for by name (youtube redirect links)
         u, v = cat("http://www.youtube.com/redirect?q=y.fr/", h), cat("http://WWW.YouTube.Com/redirect?q=y.fr/", h)
@@ -117,10 +122,12 @@ def transform(st, kind, n, quoted):
 
 
 KINDS = ["scheme-https", "scheme-none", "scheme-relative", "userinfo", "www", "www2", "m", "mobile", "amp-dot", "amp-dash", "sub-stack",
-         "default-port", "default-port-https", "host-case", "host-case-platform", "trailing-slash", "index", "default-page", "fragment", "utm", "tracking-fixed",
+         "default-port", "default-port-https", "host-case", "host-case-platform", "scheme-with-port", "scheme-with-port-80", "trailing-slash", "index", "default-page", "fragment", "utm", "tracking-fixed",
          "permutation", "permutation-keys", "amp-entity", "escape-unreserved", "outer-whitespace", "inner-control"]
 
-REDIRECTS = [("http://x.fr/r?u=", ""), ("http://x.fr/r?url=http%3A%2F%2Fy.fr%2F", "&k=v"), ("https://l.x.fr/l.php?next=/", "#f")]
+REDIRECTS = [("http://x.fr/r?u=", ""), ("http://x.fr/r?url=http%3A%2F%2Fy.fr%2F", "&k=v"), ("https://l.x.fr/l.php?next=/", "#f"),
+             # an escape inside the embedded target, itself escaped in the carrier (double encoding), either letter case
+             ("http://x.fr/r?url=http%3A%2F%2Fy.fr%2Fa%25", "b%3Fk%3D1")]
 
 
 def redirect(st, skel, n, quoted):
